@@ -2,7 +2,7 @@
 # usage: mkagentwt.sh <ID> ; creates /tmp/wt-<ID>: a scratch worktree of /repo HEAD without the contract files,
 # plus /tmp/prop-<ID>.txt (property text only) and /tmp/agent-prompt-<ID>.txt
 set -e
-id=$1; prop=${id%%r*}
+id=$1; prop=${id%%[rh]*}
 wt=/tmp/wt-$id
 git -C /repo worktree remove --force $wt 2>/dev/null || true
 rm -rf $wt
